@@ -119,7 +119,9 @@ pub fn term_failure(td: &TD) -> Option<String> {
         if extracted.get(td.num).map(|s| s.as_str()) != Some("_") {
             return Some(format!("extracted image has no placeholder at its index {}: {:?}", td.num, extracted));
         }
-        if without.iter().any(|c| c == "_") {
+        // (a placeholder that is itself a stored component - e.g. from `(/, a, _, _)` - stays)
+        let stored = td.kids.iter().filter(|k| k.k == Kind::Placeholder).count();
+        if without.iter().filter(|c| *c == "_").count() != stored {
             return Some("get_components of an image contains the placeholder".into());
         }
         if with.len() != without.len() + 1 {
